@@ -15,7 +15,7 @@ Definition cfg_c_override : strop_cfg :=
   {| sc_reserved := [[97]; [95; 97]]; sc_patterns := sc_patterns cfg_c; sc_rules := sc_rules cfg_c;
      sc_prefix := sc_prefix cfg_c; sc_suffix := sc_suffix cfg_c; sc_enc_prefix := sc_enc_prefix cfg_c;
      sc_ws_char := sc_ws_char cfg_c; sc_collapse := sc_collapse cfg_c;
-     sc_strop_handler := sc_strop_handler cfg_c; sc_enc_handler := sc_enc_handler cfg_c; sc_reverify := false |}.
+     sc_strop_handler := sc_strop_handler cfg_c; sc_enc_handler := sc_enc_handler cfg_c; sc_reverify := false; sc_full_check := false |}.
 
 Lemma strop_sound_override_refuted_thm :
   exists ty s t, s <> [] /\ strop py_uni py_isspace cfg_c_override ty s = Ok t /\ is_reserved cfg_c_override t = true.
@@ -29,7 +29,8 @@ Definition cfg_c_override_now : strop_cfg :=
   {| sc_reserved := [[97]; [95; 97]]; sc_patterns := sc_patterns cfg_c; sc_rules := sc_rules cfg_c;
      sc_prefix := sc_prefix cfg_c; sc_suffix := sc_suffix cfg_c; sc_enc_prefix := sc_enc_prefix cfg_c;
      sc_ws_char := sc_ws_char cfg_c; sc_collapse := sc_collapse cfg_c;
-     sc_strop_handler := sc_strop_handler cfg_c; sc_enc_handler := sc_enc_handler cfg_c; sc_reverify := strop_reverifies |}.
+     sc_strop_handler := sc_strop_handler cfg_c; sc_enc_handler := sc_enc_handler cfg_c; sc_reverify := strop_reverifies;
+     sc_full_check := strop_full_check |}.
 
 (* which of the two holds is decided by the regenerated flag: with the fix, every override with chk_base is sound (and the
    witness override is rejected with RuntimeError); without it, the witness override returns the reserved `_a` *)
